@@ -505,7 +505,7 @@ func checkC13(p *Prog, r *Report) {
 		})
 		if loop == nil || len(loop.Body.List) == 0 {
 			r.Fail("readPacket: the wait loop", p.Pos(f.Body.Pos()), "the loop was not found")
-		} else if start, ok := g.Locate(loop.Body.List[0]); !ok {
+		} else if start, ok := g.Locate(firstEvaluated(loop.Body.List[0])); !ok {
 			r.Unknown("readPacket: the wait loop", p.Pos(loop.Pos()), "first statement of the loop not located in the CFG")
 		} else {
 			isQueueTest := func(n ast.Node) bool { return p.MentionsField(n, "udpMuxedConn.bufTail") }
@@ -596,5 +596,52 @@ func checkAbortForwarding(p *Prog, r *Report) {
 	if f := p.Fn("udpMuxedConn.abortWrite"); r.Anchor("udpMuxedConn.abortWrite", f != nil) {
 		cs := p.CallsTo(f, false, "ice.UDPMuxDefault.abortWrite")
 		r.Check(len(cs) == 1 && p.calledOnEveryPath(f, cs[0]), "muxed connection forwards the abort to the mux", p.Pos(f.Body.Pos()), "Mux.abortWrite() on every path", "the muxed connection's abortWrite does not reach the mux on every path: a write that is blocked in the shared socket through a path its bookkeeping does not see is not aborted, and Close waits for it forever")
+	}
+}
+
+// firstEvaluated: the node of st that is evaluated first (what the CFG holds for a compound statement).
+func firstEvaluated(st ast.Stmt) ast.Node {
+	switch s := st.(type) {
+	case *ast.IfStmt:
+		if s.Init != nil {
+			return firstEvaluated(s.Init)
+		}
+		return unparenCond(s.Cond)
+	case *ast.SwitchStmt:
+		if s.Init != nil {
+			return firstEvaluated(s.Init)
+		}
+		if s.Tag != nil {
+			return s.Tag
+		}
+	case *ast.BlockStmt:
+		if len(s.List) > 0 {
+			return firstEvaluated(s.List[0])
+		}
+	case *ast.LabeledStmt:
+		return firstEvaluated(s.Stmt)
+	}
+	return st
+}
+
+// unparenCond: the leftmost operand of a condition (what a short-circuit lowering evaluates first).
+func unparenCond(e ast.Expr) ast.Node {
+	for {
+		switch x := e.(type) {
+		case *ast.ParenExpr:
+			e = x.X
+			continue
+		case *ast.BinaryExpr:
+			if x.Op == token.LAND || x.Op == token.LOR {
+				e = x.X
+				continue
+			}
+		case *ast.UnaryExpr:
+			if x.Op == token.NOT {
+				e = x.X
+				continue
+			}
+		}
+		return e
 	}
 }
